@@ -38,6 +38,7 @@ type ctor struct {
 	hasErr       bool
 	void         bool
 	resultObj    bool
+	inertFirst   bool   // result objects: the inject:"-" fields and an unexported field come BEFORE the live fields
 	markerLast   bool   // the godi.In / godi.Out marker is the LAST field of the parameter / result object
 	closure      string // non-empty: the constructor is a closure made by the factory of that name (shared code pointer)
 }
@@ -378,6 +379,11 @@ func main() {
 	// such service and whose second field is optional (and registered)
 	sp(&ctor{name: "InOptAfter_S7", inStyle: true, deps: []dep{mkDep("S5", "FPlain"), mkDep("S6", "FOpt")}, outs: simpleOut("S7")})
 	sp(&ctor{name: "InOptAfter_S4", inStyle: true, deps: []dep{mkDep("S5", "FPlain"), mkDep("S6", "FOpt")}, outs: simpleOut("S4")})
+	// fields the container must skip (ignored, unexported) standing BEFORE live fields
+	sp(&ctor{name: "InIgnMid_K0", inStyle: true, deps: []dep{{target: "K2", form: "FIgnored"}, {target: "K3", form: "FUnexported"}, mkDep("K1", "FPlain"), mkDep("K2", "FGroup")}, outs: simpleOut("K0"), hasErr: true})
+	sp(&ctor{name: "InIgnMid_S4", inStyle: true, deps: []dep{{target: "K0", form: "FUnexported"}, mkDep("K1", "FOpt"), {target: "K2", form: "FIgnored"}, mkDep("K3", "FKeyed")}, outs: simpleOut("S4")})
+	sp(&ctor{name: "OutIgnMid_K2K3", resultObj: true, inertFirst: true, outs: []out{{typ: "K2"}, {typ: "K3", key: "k"}}, ignoredOuts: []out{{typ: "S0", impl: "S0", field: "Ign"}}})
+	sp(&ctor{name: "OutIgnMid_S5S6", resultObj: true, inertFirst: true, markerLast: true, outs: []out{{typ: "S5"}, {typ: "S6", group: "g"}}, ignoredOuts: []out{{typ: "S1", impl: "S1", field: "Ign"}}})
 	writeTypes()
 	writeCtors()
 }
@@ -540,6 +546,12 @@ func writeCtors() {
 			if !c.markerLast {
 				b.WriteString("\tgodi.Out\n")
 			}
+			if c.inertFirst {
+				for _, o := range c.ignoredOuts {
+					fmt.Fprintf(&b, "\t%s %s `inject:\"-\"`\n", o.field, goType(o.typ))
+				}
+				b.WriteString("\tprivNote string\n")
+			}
 			for _, o := range c.outs {
 				tag := ""
 				var parts []string
@@ -554,8 +566,10 @@ func writeCtors() {
 				}
 				fmt.Fprintf(&b, "\t%s %s%s\n", o.field, goType(o.typ), tag)
 			}
-			for _, o := range c.ignoredOuts {
-				fmt.Fprintf(&b, "\t%s %s `inject:\"-\"`\n", o.field, goType(o.typ))
+			if !c.inertFirst {
+				for _, o := range c.ignoredOuts {
+					fmt.Fprintf(&b, "\t%s %s `inject:\"-\"`\n", o.field, goType(o.typ))
+				}
 			}
 			if c.markerLast {
 				b.WriteString("\tgodi.Out\n")
